@@ -9,7 +9,7 @@
     ([unfixed] = before all three, [all_fixed] = /repo now); theorems quantify over [fx] where they hold for every setting,
     name the switch they need otherwise, and the [_refuted] witnesses are stated for [unfixed].  A scaling factor is [FPow q] = 10^q or [FZero] = 0.0. *)
 From Coq Require Import String List Bool ZArith QArith Permutation Relations.
-From LC Require Import UnitsDefs UnitsSpec UnitsProofs UnitsFuelProofs.
+From LC Require Import UnitsDefs UnitsSpec UnitsProofs UnitsFuelProofs UnitsRound5Proofs.
 From LCGen Require Import UnitTables PrefixTable.
 Import ListNotations.
 Local Open Scope string_scope.
@@ -272,6 +272,29 @@ Theorem C08_equivalent_iff : forall fx f w a b,
   compatible fx f w a b = Ok true /\ exists q, scaling_factor fx f w a b = Ok (FPow q) /\ q == 0.
 Proof. exact UnitsProofs.equivalent_iff. Qed.
 Print Assumptions C08_equivalent_iff.
+
+(** Units::equivalent is a partial equivalence relation (every world, fuel and setting of the switches), reflexive on a defined
+    units whose scale is computable, and scalingFactor is a congruence for it (UnitsRound5Proofs.v). *)
+Theorem C08_equivalent_sym : forall fx f w a b, equivalent fx f w a b = Ok true -> equivalent fx f w b a = Ok true.
+Proof. exact UnitsRound5Proofs.equivalent_sym. Qed.
+Print Assumptions C08_equivalent_sym.
+
+Theorem C08_equivalent_trans : forall fx f w a b c,
+  equivalent fx f w a b = Ok true -> equivalent fx f w b c = Ok true -> equivalent fx f w a c = Ok true.
+Proof. exact UnitsRound5Proofs.equivalent_trans. Qed.
+Print Assumptions C08_equivalent_trans.
+
+Theorem C08_equivalent_refl : forall fx f w a l, is_defined fx f w (fst a) (snd a) = Ok true ->
+  mult_go fx f w (fst a) (snd a) = Ok (Some l) -> equivalent fx f w (Some a) (Some a) = Ok true.
+Proof. exact UnitsRound5Proofs.equivalent_refl. Qed.
+Print Assumptions C08_equivalent_refl.
+
+Theorem C08_factor_equivalent_congr : forall fx f w a a' b b' q,
+  equivalent fx f w a a' = Ok true -> equivalent fx f w b b' = Ok true ->
+  scaling_factor fx f w a b = Ok (FPow q) ->
+  exists q', scaling_factor fx f w a' b' = Ok (FPow q') /\ q' == q.
+Proof. exact UnitsRound5Proofs.factor_equivalent_congr. Qed.
+Print Assumptions C08_factor_equivalent_congr.
 
 (** ** the validator's and the analyser's own reductions *)
 
